@@ -101,6 +101,28 @@ def run(shard):
         if again != back:
             viol("re-encoding the same decoded mapping a second time gives a different table",
                  "first %s second %s" % (H.short(list(back), 200), H.short(list(again) if isinstance(again, bytes) else again, 200)))
+        # a rejected request on the decoded mapping (its own methods, called at the wrong moment or with the wrong offset) must
+        # leave it the decoded mapping: it still re-encodes to the table
+        H.count("checks:C10.rejected_request")
+        try:
+            m2 = _line_mapping.to_line_mapping(code)
+            rejected = 0
+            for off in (len(code.co_code), 0, len(code.co_code) + 2):
+                try:
+                    m2.pop_additional_line(off)
+                except Exception:
+                    rejected += 1
+                    back2 = _line_mapping.from_line_mapping(m2)
+                    if back2 != back:
+                        viol("a rejected request changes the decoded mapping", "after pop_additional_line(%d) raised, the mapping re-encodes to %s... instead of %s..." % (
+                            off, list(back2[:16]), list(back[:16])))
+                        break
+                else:
+                    break       # the request was served: the mapping legitimately changed
+            if rejected:
+                H.count("rejected_requests", rejected)
+        except Exception as e:
+            H.count("skipped:rejected_request:" + type(e).__name__)
         if back != table:
             stage = localise(code, table)
             i = 0
